@@ -46,6 +46,10 @@ def cases(draw, cls, max_n=80, max_p=20):
         case["retune_from"] = {"period": draw(st.integers(2, max_p))}
         if cls == "EMA":
             case["retune_from"]["smoothing"] = draw(st.sampled_from((1.0, 2.0, 3.0)))
+    if draw(st.integers(0, 3)) == 0:
+        from hxv.lib import interlude
+
+        case["interlude"] = dict(interlude(lambda a, b: draw(st.integers(a, b)), lambda xs: draw(st.sampled_from(xs))), at=draw(st.integers(1, 80)))
     if cls == "VWMA":
         return case
     kind = draw(st.sampled_from(("price", "volume", "synthetic", "synthetic", "synthetic", "synthetic", "upstream", "upstream")))
@@ -123,7 +127,9 @@ def run_case(case) -> Result:
         return Result([], False, ["empty"])
     name, prep, xs = _setup(case)
     cfg = {"cls": cls, "kw": kw if cls == "VWMA" else dict(kw, input_value=name)}
-    ind, v = nm.run_batch(cfg, rows, prep)
+    ind, v = nm.run_batch(cfg, rows, prep, inter=case.get("interlude"))
+    if case.get("interlude"):
+        labels.append("maintenance_interlude")
     if v is not None:
         v.subject = cls
         return Result([v], False, labels)
